@@ -7,5 +7,6 @@ pub mod enumerate;
 pub mod float;
 pub mod shape;
 pub mod render;
+pub mod schema;
 
 pub use item::*;
